@@ -61,7 +61,9 @@ func c17R1(c *Ctx) {
 			{"index<total", cfgx.Equals("(a1.Index < a0.total)")},
 			{"slot-empty", cfgx.Equals("(a0.parts[a1.Index] == nil)")},
 		})
-		ok, why := everyPath(f, s, func(g map[string]bool) bool { return g["!a2"] || g[verify] })
+		// PartSet.Hash() is a nil-tolerant getter of ps.hash; the receiver is non-nil here (its mutex was taken)
+		verifyField := strings.Replace(verify, "gemmill/types.(*PartSet).Hash(a0)", "a0.hash", 1)
+		ok, why := everyPath(f, s, func(g map[string]bool) bool { return g["!a2"] || g[verify] || g[verifyField] })
 		c.R.Ob(rule, names[s]+":verified-or-not-requested", ok, c.Pos(s), fname(f), "a part reaches the set without its Merkle proof having verified against (index, total, part hash, set hash); "+why)
 	}
 	// bit index argument
